@@ -375,7 +375,15 @@ func runC25(c *core.Ctx) {
 	}
 	if fn := c.Fn("C25.d", "store", "(*Store).fsmApply"); fn != nil {
 		ok := false
-		for _, cl := range an.WithClosures(fn) {
+		hosts := an.WithClosures(fn)
+		// the block may have become a private method of its own
+		if h := hostOf(fn, func(f *ssa.Function) bool {
+			return len(an.CallsTo(f, false, "db.CDCStreamer.Reset")) == 1 && len(an.CallsTo(f, false, "store.CommandProcessor.Process")) == 1
+		}); h != nil && h != fn {
+			c.Touch(h)
+			hosts = append(hosts, an.WithClosures(h)...)
+		}
+		for _, cl := range hosts {
 			resets := an.CallsTo(cl, false, "db.CDCStreamer.Reset")
 			procs := an.CallsTo(cl, false, "store.CommandProcessor.Process")
 			if len(resets) == 1 && len(procs) == 1 {
